@@ -133,7 +133,8 @@ class CertAnalysis:
                 # from argument order or names: (destination position, source position)
                 pairs = self.pairs.get(name) or set()
                 px, py = "p%d" % (self.prob_idx + 1), "p%d" % (self.prob_idx + 2)      # the driver's primal / dual out-parameters
-                ok = bool(pairs) and any(self.is_prob(a) for a in args) and isinstance(cert, tuple)
+                # (the problem need not be among the arguments: a hand-over that is given the display level instead is the same hand-over)
+                ok = bool(pairs) and isinstance(cert, tuple)
                 seen = set()
                 for (d, s_) in pairs:
                     if not ok:
